@@ -911,7 +911,7 @@ func runFullWorld(run *sim.Run, wi int, nBlocks int) {
 	var infrHeight int64
 	var infrTime time.Time
 	var infrPower int64
-	if nVals >= 2 && rng.Chance(1, 2) {
+	if nVals >= 2 && rng.Chance(3, 4) {
 		jailAt = rng.Range(3, nBlocks/2)
 		evidenceAt = jailAt + rng.Range(2, 6)
 		victim = rng.Intn(nVals)
